@@ -19,6 +19,13 @@ tie   : stream valid-grid — valid and invalid grid geometries (templates of ev
         stream pair-rule — the real PolygonIntersectionAnalyzer::processIntersections (findInvalidIntersection) on single pairs
         of ring segments, both flag settings, against the Lean copy (Model/Valid/PairRule.lean), which is PROVED equal to the
         reference evaluator's intersection rule (findInvalidIntersection_eq_pairRule).
+translator tie (every run): translate/cxx2lean.py regenerates PolygonNodeTopology + Quadrant::quadrant (spec node_topology),
+        PolygonIntersectionAnalyzer::processIntersections / findInvalidIntersection / isAdjacentInRing / prevCoordinateInRing (valid_pair_rule),
+        IsValidOp::isValidGeometry and the isValid overloads = the rule order and early exits (valid_rule_order),
+        PolygonTopologyAnalyzer::isRingNested with all helpers incl. the while loops (valid_ring_nested),
+        IsSimpleOp::NonSimpleIntersectionFinder::findIntersection / isIntersectionEndpoint / intersectionVertexIndex (valid_simple_pair)
+        from the current source;
+        Props/C05Gen*.lean prove each regenerated definition equal to the hand-written model the CORE theorems are about.
 A difference in a verdict IS a violation of C05 (GEOS != the rules).  Known defects are matched by structural signatures."""
 import os, json, glob
 import verif, gtok
@@ -26,6 +33,12 @@ from verif import log
 
 LEVEL = "proof"
 PROPS = ["GeosModel.Props.C05"]
+# translator tie: (spec, regenerated file, bridge module) — regenerated from /repo's current source on every run
+GENS = [("node_topology", "GeosModel/Generated/NodeTopology.lean", "GeosModel.Props.C05Gen"),
+        ("valid_pair_rule", "GeosModel/Generated/ValidPairRule.lean", "GeosModel.Props.C05GenPair"),
+        ("valid_rule_order", "GeosModel/Generated/ValidRuleOrder.lean", "GeosModel.Props.C05GenOrder"),
+        ("valid_ring_nested", "GeosModel/Generated/ValidRingNested.lean", "GeosModel.Props.C05GenNest"),
+        ("valid_simple_pair", "GeosModel/Generated/ValidSimplePair.lean", "GeosModel.Props.C05GenSimple")]
 DRV = "drv_c05"
 STREAM = "valid-grid"
 
@@ -156,7 +169,7 @@ def run(ctx):
         "the full invariance statement for the reference (C05_ref_invariant_full) is not proved; the implementation's invariance is checked per case by the harness oracle",
         "curved geometry is not covered; MCIndexNoder completeness (every intersecting segment pair is presented to the analyzer) is covered only by correspondence",
     ])
-    proved = ctx.prove(PROPS, extra_targets=(DRV,))
+    proved = ctx.prove_generated(GENS, PROPS, extra_targets=(DRV,))
     ok, out = verif.build_geos("rel")
     if not ok:
         ctx.violation("GEOS does not build with -DGEOS_VERIF", {"kind": "build-failure", "log": out[-3000:]}, nofail=True)
